@@ -47,6 +47,51 @@ def gen_calls(rng, n):
     return calls
 
 
+def uniformity_calls(rng, start_id, sweeps):
+    """long random-order runs at a positive temperature for several sizes (incl. powers of two)"""
+    calls = []
+    for q, n in enumerate([2, 3, 4, 5, 8]):
+        for fn, kind in (("anneal_quso", "QUSOMatrix"), ("anneal_puso", "PUSOMatrix")):
+            terms = [[[i], rng.choice([-1, 1])] for i in range(n)] + [[[i, (i + 1) % n], rng.choice([-2, 1, 2])] for i in range(n - 1)]
+            if fn == "anneal_puso" and n >= 3:
+                terms.append([[0, 1, 2], 1])
+            calls.append({"id": start_id + len(calls), "fn": fn, "kind": kind, "terms": terms, "den": 1, "labels": {},
+                          "kwargs": {"schedule": [1.5] * sweeps, "in_order": False, "seed": rng.randint(0, 10 ** 6), "num_anneals": 2},
+                          "trace": True, "twice": True})
+    return calls
+
+
+def uniform_records(recs, raw_outs):
+    """index counts per number of spins (random visiting only) and variate buckets, with Hoeffding bands"""
+    import math
+    idx = {}
+    buckets = [0] * 8
+    nu = 0
+    for rc, o in zip(recs, raw_outs):
+        if rc["inorder"]:
+            pass
+        for ln in o.get("ev", []):
+            p = ln.split()
+            if p and p[0] == "S":
+                if not rc["inorder"]:
+                    idx.setdefault(rc["N"], [0] * rc["N"])[int(p[3])] += 1
+                u = float.fromhex(p[6])
+                if 0.0 <= u < 1.0:
+                    buckets[int(u * 8)] += 1
+                    nu += 1
+    out = []
+
+    def band(n):
+        return int(math.ceil(math.sqrt(n * math.log(2e12) / 2.0)))
+    for n, counts in sorted(idx.items()):
+        tot = sum(counts)
+        if n >= 2 and tot >= 400 * n:
+            out.append({"what": "indices N=%d" % n, "counts": counts, "total": tot, "band": band(tot)})
+    if nu >= 4000:
+        out.append({"what": "variate buckets", "counts": buckets, "total": nu, "band": band(nu)})
+    return out
+
+
 def to_record(call, out, tid):
     den = call["den"]
     names = {}
@@ -76,7 +121,9 @@ def to_record(call, out, tid):
     keys = [x[0] for x in api[0]["st"]] if api else []
     ev_sts = [e["st"] for e in evs if e["e"] == "E"]
     pi = []
-    if m:
+    if m and matrix:
+        pi = list(range(mi["N"]))            # Matrix kinds: the property demands the identity (verified by TLC)
+    elif m:
         pi = ac.find_pi(ac.kernel_terms_from_marshal(m, den), call["terms"], mi["N"], keys, [a["st"] for a in api], ev_sts)
     rec = {"tid": tid, "id": call["id"], "fn": call["fn"], "kind": call["kind"], "den": den, "matrix": matrix,
            "user": call["terms"], "pi": pi, "inorder": bool(m.get("in_order", 0)), "tpos": [bool(T > 0) for T in m.get("Ts", [])],
@@ -135,9 +182,10 @@ def run(tier, out, replay=None):
                     if "CacheExact" not in r.violated:
                         out.notes.append("VACUITY WARNING: cache factor 2 not rejected")
             calls = gen_calls(rng, 6000 if thorough else 500)
+            calls += uniformity_calls(rng, len(calls), 400 if thorough else 120)
         rc, stdout, outs = ac.run_driver(calls, so, wd, "c12")
         byid = {o["id"]: o for o in outs}
-        recs = []
+        recs, raws = [], []
         for c in calls:
             o = byid.get(c["id"])
             if o is None:
@@ -152,6 +200,7 @@ def run(tier, out, replay=None):
             rec = to_record(c, o, len(recs) + 1)
             rec["_call"] = c
             recs.append(rec)
+            raws.append(o)
         if recs:
             smp = {k: recs[0][k] for k in ("fn", "kind", "user", "N", "tpos", "inorder", "init", "pi")}
             smp["first_events"] = recs[0]["ev"][:4]
@@ -166,6 +215,16 @@ def run(tier, out, replay=None):
                 e.pop("u_ok", None)
         validate(out, wd, [dict((k, v) for k, v in r.items() if k != "_call") | {"_call": None} for r in recs] and
                  [{k: v for k, v in r.items() if k != "_call"} for r in recs], "impl")
+        if not replay:
+            urecs = uniform_records(recs, raws)
+            out.set("uniformity_records", [{k: u[k] for k in ("what", "total", "band")} for u in urecs])
+            if urecs:
+                uf = os.path.join(wd, "uniform.ndjson")
+                common.write_ndjson(uf, urecs)
+                ru = run_tlc("CheckUniform", "CheckUniform.cfg", env={"QV_RECS": uf}, cont=True, timeout=300, name="uniform")
+                for v in ru.viol_lines:
+                    u = urecs[int(v[2]) - 1]
+                    out.violation("Uniform", "Uniform " + u["what"], u, None)
         # keep the call for replays
         out.assumptions += [
             "uniformity / independence of the PCG32 stream is assumed (variates only checked to lie in [0,1)); the distributional "
